@@ -465,14 +465,14 @@ func TestC22(t *testing.T) {
 	rec.Rule("uncompressed OpenConfig-style voc tree (config only) -> SetRequest a over it (deletes of leaves/containers/list entries, leaf and JSON_IETF replaces, leaf updates " +
 		"as scalar TypedValues or JSON_IETF scalars, JSON_IETF updates at container / list-entry / root level, optional prefix) -> request b by 1-3 intent-preserving rewrites " +
 		"(leaf updates <-> JSON update carrying exactly those leaves, prefix re-split, reorder, leaf replace <-> update, duplicated identical update) x schema argument (nil | vocu | compressed vocc); " +
-		"oracle: DiffSetRequest(a,a) and (b,b) have nothing missing/extra/mismatched; (b,a) is (a,b) with missing<->extra, A<->B and the same common entries; whenever no error is returned (a,b) has nothing missing/extra/mismatched; a panic is a failed comparison; " +
+		"plus an unrelated request c over the same tree with up to two changed values; oracle: DiffSetRequest(a,a) and (b,b) have nothing missing/extra/mismatched; (b,a) is (a,b) and (c,a) is (a,c) with missing<->extra, A<->B and the same common entries; whenever no error is returned (a,b) has nothing missing/extra/mismatched; a panic is a failed comparison; " +
 		"non-trivial = the rewrite changed the message (prototext differs) and the request touches a list entry; distinct by schema mode + prototext of both requests")
 	rec.Assume("without a schema only lossless scalar encodings are used: 64-bit integers and decimal64 leaves are written in RFC 7951 form (json_ietf_val), identityrefs are spelled the same way in TypedValues and documents (gnmidiff documents that TypedValue is lossy there)")
 	rec.Assume("a JSON document rooted above a list entry carries the entry's key leaves (OpenConfig style); with the compressed schema a document carries `k` and `config/k` of a key together, because the compressed struct has one field for both")
 	rec.Assume("requests with conflicting operations, the root as JSON target with a schema, or compressed-out containers as JSON target may return an error; only results without error are judged")
 	registerC22Witnesses(rec)
 
-	var cases, errCases, excusedCases int
+	var cases, errCases, excusedCases, swapMism int
 	errKinds := map[string]int{}
 	cl := map[string]int{}
 	rapid.Check(t, func(rt *rapid.T) {
@@ -501,8 +501,33 @@ func TestC22(t *testing.T) {
 				labels = append(labels, rwNone)
 			}
 		}
+		// c: an unrelated request over the same tree (another selection of leaves and operations) with up to two
+		// leaf values changed, so that the swap law is exercised on diffs that have all four categories
+		c := w.genRequest(rt, gc)
+		nchg := rapid.IntRange(0, 2).Draw(rt, "c-changes")
+		for i := 0; i < nchg; i++ {
+			var cand []*op
+			for _, l := range [][]op{c.reps, c.upds} {
+				for j := range l {
+					if o := &l[j]; o.leaf >= 0 && o.val == nil && o.ll == nil {
+						if lf := w.leaves[o.leaf]; lf.keyOf < 0 && !(lf.partner >= 0 && w.leaves[lf.partner].keyOf >= 0) {
+							cand = append(cand, o)
+						}
+					}
+				}
+			}
+			if len(cand) == 0 {
+				break
+			}
+			o := cand[rapid.IntRange(0, len(cand)-1).Draw(rt, "c-change")]
+			if nv, nl, ok := w.changedValue(rt, w.leaves[o.leaf]); ok {
+				o.val, o.ll = nv, nl
+			}
+		}
 		rc := renderCfg{md: md, jo: model.JSONOpts{Prefix: rapid.Bool().Draw(rt, "json-prefix"), IdentPrefix: rapid.Bool().Draw(rt, "ident-prefix")}}
 		ra, rb := w.render(a, rc), w.render(b, rc)
+		rcq := w.render(c, rc)
+		tc := ptext(rcq)
 		ta, tb := ptext(ra), ptext(rb)
 		entries := w.touchedEntries(a, b)
 		nontrivial := ta != tb && len(entries) > 0
@@ -530,7 +555,7 @@ func TestC22(t *testing.T) {
 				ucl = append(ucl, c)
 			}
 		}
-		rec.Case(md.String()+"\n"+ta+"\n--\n"+tb, nontrivial, ucl...)
+		rec.Case(md.String()+"\n"+ta+"\n--\n"+tb+"\n--\n"+tc, nontrivial, ucl...)
 		cases++
 		for _, c := range ucl {
 			cl[c]++
@@ -615,6 +640,39 @@ func TestC22(t *testing.T) {
 				rt.Fatalf("%s", describe(fmt.Sprintf("reflexivity: DiffSetRequest(%s, %s) reports missing/extra/mismatched %v", name, name, bp), res))
 			}
 		}
+		// swap law on the unrelated pair (a, c)
+		ac, ca := runDiff(ra, rcq, sch), runDiff(rcq, ra, sch)
+		descC := func(what string) string {
+			return fmt.Sprintf("%s\nschema: %s\n---- request a ----\n%s\n---- request c ----\n%s\n---- DiffSetRequest(a, c) ----\n%s\n---- DiffSetRequest(c, a) ----\n%s\n", what, md, ta, tc, ac, ca)
+		}
+		switch {
+		case ac.panic != nil || ca.panic != nil:
+			for _, r := range []diffRes{ac, ca} {
+				if r.panic != nil && !excusePanic(r, a, c) {
+					rt.Fatalf("%s", descC("DiffSetRequest panicked on the pair (a, c)"))
+				}
+			}
+		case (ac.err == nil) != (ca.err == nil):
+			rt.Fatalf("%s", descC("swap law: only one argument order returns an error"))
+		case ac.err == nil:
+			if f := swapFault(ac.d, ca.d); f != "" {
+				rt.Fatalf("%s", descC("swap law violated: "+f))
+			}
+			n := 0
+			for _, x := range []int{len(ac.d.MissingUpdates), len(ac.d.ExtraUpdates), len(ac.d.MismatchedUpdates), len(ac.d.CommonUpdates)} {
+				if x > 0 {
+					n++
+				}
+			}
+			rec.Class(fmt.Sprintf("swap-pair:%d-of-4-update-categories", n))
+			if len(ac.d.MissingDeletes)+len(ac.d.ExtraDeletes) > 0 {
+				rec.Class("swap-pair:delete-difference")
+			}
+			if len(ac.d.MismatchedUpdates) > 0 {
+				swapMism++
+			}
+		}
+
 		// swap law and same-intent
 		ab := runDiff(ra, rb, sch)
 		ba := runDiff(rb, ra, sch)
@@ -689,6 +747,9 @@ func TestC22(t *testing.T) {
 			need("op:update-json-root", 0.01)
 			need("op:replace-json-entry", 0.03)
 			need("op:replace-json-container", 0.03)
+		}
+		if float64(swapMism)/float64(cases) < 0.1 {
+			t.Errorf("INCONCLUSIVE: the unrelated pair (a, c) had mismatched updates in only %d of %d cases (need >= 10%%)", swapMism, cases)
 		}
 		if f := float64(errCases) / float64(cases); f > 0.25 {
 			t.Errorf("INCONCLUSIVE: DiffSetRequest returned an error (or an excused panic) in %.1f%% of %d cases (budget 25%%): %v", 100*f, cases, errKinds)
